@@ -542,8 +542,15 @@ class TLSConnection(TLSRecordLayer):
         # Check the serverHello.random  if it includes the downgrade protection
         # values as described in RFC8446 section 4.1.3
 
+        # (relative to the highest version this ClientHello offered)
+        offered = clientHello.getExtension(ExtensionType.supported_versions)
+        if offered and offered.versions:
+            offered = max(offered.versions)
+        else:
+            offered = clientHello.client_version
+
         # For TLS1.3
-        if (settings.maxVersion > (3, 3) and self.version <= (3, 3)) and \
+        if (offered > (3, 3) and self.version <= (3, 3)) and \
                 (serverHello.random[-8:] == TLS_1_2_DOWNGRADE_SENTINEL or
                  serverHello.random[-8:] == TLS_1_1_DOWNGRADE_SENTINEL):
             for result in self._sendError(AlertDescription.illegal_parameter,
@@ -552,7 +559,7 @@ class TLSConnection(TLSRecordLayer):
                 yield result
 
         # For TLS1.2
-        if settings.maxVersion == (3, 3) and self.version < (3, 3) and \
+        if offered == (3, 3) and self.version < (3, 3) and \
                 serverHello.random[-8:] == TLS_1_1_DOWNGRADE_SENTINEL:
             for result in self._sendError(AlertDescription.illegal_parameter,
                                           "Connection terminated because "
@@ -785,9 +792,14 @@ class TLSConnection(TLSRecordLayer):
                 extensions.append(DelegatedCredentialExtension()\
                                        .create(settings.dc_sig_algs))
         session_id = bytearray()
+        # TLS 1.3 can be negotiated only with one of its own cipher suites,
+        # don't advertise it when none of them is enabled
+        versions = settings.versions
+        if not [i for i in cipherSuites if i in CipherSuite.tls13Suites]:
+            versions = [i for i in versions if i < (3, 4)]
         # when TLS 1.3 advertised, add key shares, set fake session_id
         shares = None
-        if next((i for i in settings.versions if i > (3, 3)), None):
+        if next((i for i in versions if i > (3, 3)), None):
             # if we have a client cert configured, do indicate we're willing
             # to perform Post Handshake Authentication
             if certParams and certParams[1]:
@@ -800,7 +812,7 @@ class TLSConnection(TLSRecordLayer):
             session_id = getRandomBytes(32)
 
             extensions.append(SupportedVersionsExtension().
-                              create(settings.versions))
+                              create(versions))
 
             shares = []
             for group_name in settings.keyShares:
@@ -875,7 +887,7 @@ class TLSConnection(TLSRecordLayer):
 
         # when TLS 1.3 advertised, send also compress_certificate extension
         if (
-            next((i for i in settings.versions if i >= (3, 4)), None)
+            next((i for i in versions if i >= (3, 4)), None)
             and settings.certificate_compression_receive
         ):
             algos_numbers = [getattr(CertificateCompressionAlgorithm, algo)
